@@ -395,6 +395,7 @@ def _seq_worker(task):
     alphabet = array_alphabet if kind == "array" else buffer_alphabet
     batch = []
     recs = []
+    isolations = [0]
     for si, st in enumerate(task):
         rec = dict(viol=[], succ=[], nevals=0, outcomes=set(), hazards=[])
         recs.append(rec)
@@ -420,10 +421,17 @@ def _seq_worker(task):
         rec = recs[si]
         s0 = None
         if status in ("CRASH", "TIMEOUT"):
-            # isolate: one process per operation
+            # isolate the operation(s) that kill the process: the same operations as single-operation
+            # items in one batch (the batch runner restarts after each dead item). Bounded per task so
+            # that a tree on which everything crashes still terminates quickly.
+            if isolations[0] >= 3:
+                rec["viol"].append(("unattributed", [], "the interpreter process died (%s) while evaluating %d operations of this state (not isolated): %s" % (
+                    status, len(chunk), text[-300:].replace("\n", " ")), "-", "-", status, "process-dies"))
+                continue
+            isolations[0] += 1
             hist_txt = " ".join(op_item(1, f, a) for f, a in st.hist)
             singles = ["[%s [%s] [%s]]" % (st.root, hist_txt, op_item(1, f, a)) for fl, f, a, _ in chunk]
-            sres = run_batch(variant, DRV, singles, chunk=1, jobs=4, timeout=60)
+            sres = run_batch(variant, DRV, singles, chunk=len(singles), jobs=1, timeout=60)
             parts = []
             for (fl, fn, args, ex), (s2, t2) in zip(chunk, sres):
                 if s2 in ("CRASH", "TIMEOUT"):
@@ -435,6 +443,8 @@ def _seq_worker(task):
                 else:
                     s0, p = t2.split("|", 1)
                     parts.append(p)
+            # single-operation items always replay: judge them as fresh (flag 1)
+            chunk = [(1, f, a, ex) for fl, f, a, ex in chunk]
         elif status != "OK":
             raise HarnessError("C04 seq: driver error on %s: %s" % (st.root, text[:400]))
         else:
